@@ -21,6 +21,7 @@ from cvise.utils.error import AbsolutePathTestCaseError
 from cvise.utils.error import InsaneTestCaseError
 from cvise.utils.error import InvalidInterestingnessTestError
 from cvise.utils.error import InvalidTestCaseError
+from cvise.utils.error import ParentDirTestCaseError
 from cvise.utils.error import PassBugError
 from cvise.utils.error import ZeroSizeError
 from cvise.utils.misc import is_readable_file
@@ -187,6 +188,9 @@ class TestManager:
             self.check_file_permissions(test_case, [os.F_OK, os.R_OK, os.W_OK], InvalidTestCaseError)
             if test_case.parent.is_absolute():
                 raise AbsolutePathTestCaseError(test_case)
+            if '..' in test_case.parts:
+                # such a path leaves the private directory of a candidate: all candidates would share one file
+                raise ParentDirTestCaseError(test_case)
             self.test_cases.add(test_case)
 
         self.orig_total_file_size = self.total_file_size
